@@ -617,6 +617,13 @@ def _no_record(x: ak.Array) -> ak.Array | None:
     return x
 
 
+# every spelling of a coordinate field: a result holds its own coordinates and
+# must not carry the operand's coordinate fields along as if they were extras
+_azimuthal_fields = ("x", "y", "rho", "phi", "px", "py", "pt")
+_longitudinal_fields = ("z", "theta", "eta", "pz")
+_temporal_fields = ("t", "tau", "E", "e", "energy", "M", "m", "mass")
+
+
 # Type for mixing in Awkward later
 class AwkwardProtocol(Protocol):
     def __getitem__(self, where: typing.Any) -> float | ak.Array | ak.Record | None: ...
@@ -714,19 +721,13 @@ class VectorAwkward:
             fields = ak.fields(self)
             if num_vecargs == 1:
                 for name in fields:
-                    if name not in (
-                        "x",
-                        "y",
-                        "rho",
-                        "pt",
-                        "phi",
-                    ):
+                    if name not in _azimuthal_fields:
                         names.append(name)
                         arrays.append(self[name])
 
-            if "t" in fields or "tau" in fields:
+            if any(name in fields for name in _temporal_fields):
                 cls = cls.ProjectionClass4D
-            elif "z" in fields or "theta" in fields or "eta" in fields:
+            elif any(name in fields for name in _longitudinal_fields):
                 cls = cls.ProjectionClass3D
             else:
                 cls = cls.ProjectionClass2D
@@ -764,23 +765,7 @@ class VectorAwkward:
             if num_vecargs == 1:
                 for name in ak.fields(self):
                     if name not in (
-                        "x",
-                        "y",
-                        "rho",
-                        "pt",
-                        "phi",
-                        "z",
-                        "pz",
-                        "theta",
-                        "eta",
-                        "t",
-                        "tau",
-                        "m",
-                        "M",
-                        "mass",
-                        "e",
-                        "E",
-                        "energy",
+                        _azimuthal_fields + _longitudinal_fields + _temporal_fields
                     ):
                         names.append(name)
                         arrays.append(self[name])
@@ -829,21 +814,11 @@ class VectorAwkward:
             fields = ak.fields(self)
             if num_vecargs == 1:
                 for name in fields:
-                    if name not in (
-                        "x",
-                        "y",
-                        "rho",
-                        "pt",
-                        "phi",
-                        "z",
-                        "pz",
-                        "theta",
-                        "eta",
-                    ):
+                    if name not in _azimuthal_fields + _longitudinal_fields:
                         names.append(name)
                         arrays.append(self[name])
 
-            if "t" in fields or "tau" in fields:
+            if any(name in fields for name in _temporal_fields):
                 cls = cls.ProjectionClass4D
             else:
                 cls = cls.ProjectionClass3D
@@ -893,23 +868,7 @@ class VectorAwkward:
             if num_vecargs == 1:
                 for name in ak.fields(self):
                     if name not in (
-                        "x",
-                        "y",
-                        "rho",
-                        "pt",
-                        "phi",
-                        "z",
-                        "pz",
-                        "theta",
-                        "eta",
-                        "t",
-                        "tau",
-                        "m",
-                        "M",
-                        "mass",
-                        "e",
-                        "E",
-                        "energy",
+                        _azimuthal_fields + _longitudinal_fields + _temporal_fields
                     ):
                         names.append(name)
                         arrays.append(self[name])
@@ -967,23 +926,7 @@ class VectorAwkward:
             if num_vecargs == 1:
                 for name in ak.fields(self):
                     if name not in (
-                        "x",
-                        "y",
-                        "rho",
-                        "pt",
-                        "phi",
-                        "z",
-                        "pz",
-                        "theta",
-                        "eta",
-                        "t",
-                        "tau",
-                        "m",
-                        "M",
-                        "mass",
-                        "e",
-                        "E",
-                        "energy",
+                        _azimuthal_fields + _longitudinal_fields + _temporal_fields
                     ):
                         names.append(name)
                         arrays.append(self[name])
